@@ -20,8 +20,7 @@ GROUPS = {
     "T20": ("C20: the parts of Multitask that are not translated (`__check_input__`, `__check_modes__`, `__get_mode__`, `__init__`, `execute`, `__parallelize__`, `__run__` are: R20)",
             ["multitask.py:Multitask.__set_keyword_arguments__", "multitask.py:Multitask.export_results", "enums.py:ModeSolver", "enums.py:ExportType"]),
     "T02": ("C02/C04/C06/C11 and the loop: what is left of agent creation (`_generate_agents` / `_init_population` are translated: R11; `OptimizationAbstract.__init__`: R00) and the configuration / agent records",
-            ["models.py:EarlyStopping", "models.py:BaseOptimizationConfig", "models.py:Agent", "helpers.py:average_fitness",
-             "helpers.py:get_pool_executor"]),
+            ["models.py:EarlyStopping", "models.py:BaseOptimizationConfig", "models.py:Agent", "helpers.py:average_fitness"]),
 }
 for name, (doc, keys) in GROUPS.items():
     rows = ",\n".join(f'      ("{k}", "{pins[k]}")' for k in keys)
